@@ -103,8 +103,23 @@ def run(ctx):
     run_batch(ctx, MODULE, CFG, gen(), frames.OBSERVERS, sigfn, negfn)
 
     # spec growth (judged as notes): the mode gates of the three entry points
-    run_batch(ctx, MODULE, CFG, [("gate", {"api": a, "m": m}) for a in ("reader", "parse", "message") for m in list(range(-3, 9)) + [255, 256, 1 << 30]],
+    run_batch(ctx, MODULE, CFG, [("gate", {"api": a, "m": m}) for a in ("reader", "parse", "message") for m in list(range(-3, 9)) + [255, 256, 1 << 30]] + [("gate", {"api": "datastream", "m": m}) for m in range(5)],
               frames.OBSERVERS, lambda o, i, ev, v: {"observer": o, "kind": v}, None)
+
+    # spec growth (notes): the outcome CLASS of UBXReader.parse for the same frames, damaged copies of them and out-of-range modes,
+    # against UbxApi!ParseOutcome (mode gate, framing decision, SETPOLL resolution, definition selection, payload walk in one function)
+    def gen_api():
+        for k, (o, i) in enumerate(gen()):
+            if o != "c01" or k % 3 or len(i["f"]) > 1400:
+                continue
+            yield ("api", {"f": i["f"], "mode": i["mode"], "pbf": i["pbf"], "validate": i["validate"]})
+            if k % 12 == 0:
+                b = bytearray.fromhex(i["f"])
+                b[-1] ^= 0x40
+                yield ("api", {"f": bytes(b).hex(), "mode": i["mode"], "pbf": i["pbf"], "validate": 1})
+                yield ("api", {"f": i["f"], "mode": (4, -1, 7)[k % 3], "pbf": i["pbf"], "validate": 1})
+
+    run_batch(ctx, "T_Api", "T_Api.cfg", gen_api(), frames.OBSERVERS, lambda o, i, ev, v: {"observer": o, "kind": v}, None)
 
     # spec -> code: conforming payloads of every definition (TLC layouts), so that the "accepted" side covers every message type
     from ..drivers import walk
